@@ -542,7 +542,7 @@ async def search(n):
             bad = await gather_case(context, m, ws)
             if bad:
                 return bad
-        bad = await transformer_case(context, directed=True) or await transfer_case(context, directed=True) or await combinator_case(context, shape="cart(x,y)", nx=3, ny=3) or await shared_token_case(context)
+        bad = await transformer_case(context, directed=True) or await transfer_case(context, directed=True) or await combinator_case(context, shape="cart(x,y)", nx=3, ny=3) or await combinator_case(context, shape="dot(plain,cart(x,y))") or await combinator_case(context, shape="dot(a,b)") or await shared_token_case(context)
         if bad:
             return bad
         for k in range(n):
